@@ -239,6 +239,7 @@ class Rec:
 
     def __init__(self, child):
         self.child, self.calls, self.depth, self.orig = child, [], 0, {}
+        self.last_canvas = None
         for name in self.NAMES:
             if hasattr(child, name):
                 self._patch(name)
@@ -258,6 +259,7 @@ class Rec:
                     cur = r.cursor
                     r2 = {"rows": r.rows(), "cols": r.cols(), "cursor": list(cur) if cur is not None else None,
                           "text": text_rows(r)}
+                    self.last_canvas = (r, dict(r2))      # to verify afterwards that the caller left it as it was
                 elif name == "get_cursor_coords":
                     r2 = list(r) if r is not None else None
                 elif name == "pack":
@@ -295,27 +297,33 @@ class C20(core.Check):
                  "re-translated from scrollable.py on every run; binary64 thumb arithmetic modelled as exact rationals with a proved "
                  "round-to-nearest-even function, cross-checked in Coq against the kernel's primitive floats; extracted-model "
                  "correspondence on recorded wrapped-widget observations; independent slice/scrollbar oracle")
-    level_text = ("Proved in Coq, for every state (hence after every history of renders/resizes, keys, mouse events and "
-                  "set_scrollpos(any integer)), every behaviour of the wrapped widget (any canvas size, cursor, key/mouse answers) and "
-                  "every view with height >= 1: render never raises; it shows exactly rows [p, p+height) of the wrapped widget's full "
-                  "rendering with 0 <= p <= max(0, total - height), blank rows only when total < height, blank columns only when the "
-                  "content is narrower, columns cut only when it is wider; after EVERY render (fitting or trimming) the position reported "
-                  "is that p, no scroll action stays pending, and re-rendering is stable; "
-                  "the translated _adjust_trim_top keeps 0 <= p <= max(0, rows - height) for every stored position/action/cursor.  "
-                  "ScrollBar over Scrollable, every state, heights < 2^53: drawn iff the content needs more rows than the view at the full "
-                  "width, never raises, the wrapped widget gets maxcol - bar width, top/thumb/bottom are >= 0 (thumb >= 1) and sum to the "
-                  "height, the thumb is off the top iff p > 0 and the thumb is shorter than the view - which it is whenever the view has "
-                  ">= 2 rows (heights up to 2^49; a 1-row view is filled by the thumb) - and the top part is monotone in p.  A key or mouse "
-                  "event the wrapped widget handles records no scroll action and moves nothing; unhandled wheel events move the stored "
-                  "position by one.  The binary64 operations in these theorems are an exact rational model whose round-to-nearest-even is "
-                  "PROVED monotone, exact on integers < 2^53, positivity preserving and within 2^-53 relative error (no IEEE law is "
-                  "assumed); that this model is what hardware doubles do is a kernel-checked grid comparison with Coq's primitive floats "
-                  "plus the exact correspondence with CPython on every run.  (The early-return defect this check found - stale "
-                  "get_scrollpos() when the content fits - was repaired in /repo by fix: 886d649; scroll_reports_p is now a theorem and "
-                  "the former counterexamples are regression inputs in corpus/C20.)  Correspondence/oracle only: row translation of mouse clicks, cache invalidation, the exact "
-                  "key->action table, ListBox under ScrollBar (relative mode: oracle checks 'no exception, well-formed bar when the "
-                  "content overflows'; no model, those cases add nothing to the correspondence count).  Not covered: "
-                  "automove_cursor_on_scroll.")
+    level_text = ("Proved in Coq, for every state (hence after every history), every behaviour of the wrapped widget (any canvas size, "
+                  "cursor, key/mouse answers) and every view with height >= 1: render never raises; it shows exactly rows [p, p+height) "
+                  "of the wrapped widget's full rendering with 0 <= p <= max(0, total - height), blank rows only when total < height, "
+                  "blank columns only when narrower, columns cut only when wider; after EVERY render the position reported is that p, "
+                  "no scroll action stays pending, re-rendering is stable.  HISTORIES: an invariant proved by induction over arbitrary "
+                  "operation lists (renders/resizes, keys, mouse/wheel, set_scrollpos(any integer), content-size changes; bare or under a "
+                  "ScrollBar) whose observations satisfy a boolean well-formedness predicate: after every render no exception, position "
+                  "in range, nothing pending.  CURSOR FOLLOWING: when the wrapped widget moved its cursor, the chosen position keeps the "
+                  "cursor row in the window and render shows the cursor and forwards keys.  SCROLLBAR over Scrollable, heights < 2^53: "
+                  "drawn iff the content needs more rows than the view at the full width, never raises, wrapped widget gets maxcol - bar "
+                  "width, parts >= 0 (thumb >= 1) summing to the height, thumb off the top iff p > 0 and thumb < height (true whenever "
+                  "height >= 2, heights up to 2^49), top part monotone in p.  SCROLLBAR over ANY protocol widget (ListBox; absolute and "
+                  "relative mode): the same bar facts for ALL protocol answers satisfying the protocol contract (boolean predicate); the "
+                  "bar over a Scrollable is proved to be this generic bar.  CANVAS OBJECTS (through C02's CompositeCanvas, heap and grid "
+                  "models, imported read-only): Scrollable.render written once over an abstract canvas; its sizes-only instance is "
+                  "proved EQUAL to the model tied to the code; on C02's heap layer render never modifies a pre-existing list object - "
+                  "the wrapped widget's canvas, whose shards list it shares, denotes the same value afterwards - for every state, size, "
+                  "position and wrapped canvas; and for every well-formed wrapped canvas and view >= 1x1 render never raises and the "
+                  "returned canvas's CELLS are exactly rows [p, p+height) x columns [0, width) of the wrapped canvas padded with blanks.  "
+                  "Keys/mouse events the wrapped widget handles record no action and move nothing; unhandled wheel events move by one.  "
+                  "FLOATS: exact rational model with PROVED round-to-nearest-even laws (no IEEE law assumed); agreement with hardware "
+                  "doubles = kernel-checked grid against Coq primitive floats + exact correspondence with CPython every run.  "
+                  "Every case stream is model+oracle (ListBox under ScrollBar runs the protocol sub-model on the recorded protocol "
+                  "answers).  Correspondence/oracle only: row translation of mouse clicks, cache invalidation, the key->action table; that "
+                  "ListBox's own answers satisfy the protocol contract is not proved here (C07 does not model get_scrollpos/rows_max): "
+                  "the bar theorems are conditional on the boolean contract, which the oracle's exception/shape checks watch.  "
+                  "Not covered: automove_cursor_on_scroll.")
     level_note = ("Trusted: Coq kernel (vm_compute for the finite grids), py2v translator + the syntactic pre-pass in "
                   "tools/py2v/mods/scrollable.py, ExtrOcamlBasic extraction + OCaml driver, the hand model of render/keypress/"
                   "mouse_event/ScrollBar.render (tied by exact correspondence on every run), the claim that CPython float ops are "
@@ -335,10 +343,13 @@ class C20(core.Check):
         "extraction: ExtrOcamlBasic only; Z/positive/Q stay Coq datatypes; OCaml 4.13.1; tools/driver/driver.ml",
         "hand model of Scrollable.render/keypress/mouse_event/set_scrollpos/rows_max and ScrollBar.render/mouse_event in Model/Scrollable.v (validated by this correspondence, not proved against Python)",
         "Model/ScrollFloat.v as a description of CPython's binary64 arithmetic (correct rounding of int/int, float*int, float/int, round(), int()): validated against primitive floats in Coq and against CPython by the correspondence",
+        "C02's models Model/Canvas.v, CanvasHeap.v, CanvasGrid.v and its relational/refinement lemmas (imported read-only; validated by C02's own correspondence) for the canvas-object theorems",
         "the recording patch on the wrapped widget, the twin wrapped widget used as the oracle's reference rendering (same spec, "
         "replayed keypress/mouse_event/content calls) and the Python oracle in harness/props/c20.py",
     ]
     assumptions = [
+        "canvas-object theorems: the wrapped canvas is a C02 canvas value denoting a rectangular grid of clean rows (whole characters), cursor inside; references valid (vscoped)",
+        "protocol ScrollBar theorems: the wrapped widget's answers satisfy the boolean contract proto_okb (0 <= get_scrollpos <= max 1 (rows_max - maxrow); first + visible <= length)",
         "view sizes are at least 1x1 and wider than the scrollbar (a 0-column wrapped widget is outside the domain: Text.render((0,)) raises)",
         "the wrapped widget is consistent: rows()/pack() agree with the canvas it renders, its cursor (if any) lies inside its canvas",
         "row counts and heights are below 2^53 (float conversion exact), no overflow/subnormal floats",
@@ -447,8 +458,18 @@ class C20(core.Check):
                         return c[2][1] if c[0] == "pack" else c[2]
                     last_bobs[key] = [nrows(rowcalls[0]) if rowcalls else 0, nrows(rowcalls[1]) if len(rowcalls) > 1 else 0]
                 rf, rw = last_bobs[key]
+                intact = True
+                if rec.last_canvas is not None:      # the wrapped widget's (cached, shared) canvas after Scrollable used it
+                    cv, was = rec.last_canvas
+                    try:
+                        cu = cv.cursor
+                        now = {"rows": cv.rows(), "cols": cv.cols(), "cursor": list(cu) if cu is not None else None,
+                               "text": text_rows(cv)}
+                    except Exception as e:
+                        now = {"unreadable": type(e).__name__}
+                    intact = now == was
                 o = {"op": "render", "size": list(size), "rows_full": rf, "rows_w": rw, "canvas": cob,
-                     "selectable": bool(child.selectable()), "truth": tr, "cache_hit": not renders}
+                     "selectable": bool(child.selectable()), "truth": tr, "cache_hit": not renders, "intact": intact}
                 obs.append(o)
                 if err is not None:
                     outs.append({"op": "render", "err": err})
@@ -847,6 +868,9 @@ class C20(core.Check):
                 return msgs
             if k == "render":
                 w, h = op[1], op[2]
+                if not o.get("intact", True):
+                    msgs.append(f"{tag}: Scrollable.render modified the wrapped widget's own canvas (rows/cells/cursor of the "
+                                f"canvas the wrapped widget returned differ after the call)")
                 tr = o["truth"]
                 full_w = tr.get(str(-1 if fixed else w))
                 if full_w is None:
